@@ -223,6 +223,10 @@ class Sym:
   def den(self):
     return ONE if (self.c is not None or self.d is None) else self.d
 
+  def eq0(self):
+    """z3 constraint (or Python bool for a constant) stating self == 0"""
+    return (self.c == 0) if self.c is not None else (self.n == 0)
+
   def term(self):
     """A z3 term usable in claims; emits division only when unavoidable."""
     if self.c is not None: return RV(self.c)
